@@ -33,13 +33,15 @@ const KIND_MAIN_READY: u64 = 3;
 const KIND_OP: u64 = 4;
 
 /// Steps recorded by one profile at most (the rest of the thread's work runs unprofiled).
-pub const PROFILE_CAP: usize = 120_000;
+pub const PROFILE_CAP: usize = 60_000;
 
 #[derive(Clone, Debug, PartialEq)]
 pub struct Seg {
     pub thread: u8,
     /// stop at the `occ`-th arrival (1-based) at this instruction address; None: run to the end marker
     pub stop: Option<(u64, u32)>,
+    /// ... and then execute this many further instructions (single-stepped) before stopping
+    pub plus: u32,
 }
 
 #[derive(Clone, Debug, PartialEq, Default)]
@@ -47,16 +49,25 @@ pub struct PtracePlan {
     pub segs: Vec<Seg>,
     /// single-step this thread from its start marker and record its instruction addresses
     pub profile: Option<u8>,
+    /// run this thread's first call with a breakpoint on every instruction of the binary that touches a
+    /// static or is an atomic operation, and count the arrivals (not part of a replay file)
+    pub discover: Option<u8>,
+    /// run the discovery after the segments instead of before them (what a caller executes while
+    /// another one stands in the middle of its call)
+    pub discover_late: bool,
+    /// calls caller 0 makes, alone, before the scheduled part begins (they fill whatever the code keeps)
+    pub warmup: Vec<Op>,
 }
 
 impl PtracePlan {
     pub fn to_json(&self) -> Value {
         json!({
             "segments": self.segs.iter().map(|s| match s.stop {
-                Some((rip, occ)) => json!({"thread": s.thread, "until_address": format!("{:#x}", rip), "occurrence": occ}),
+                Some((rip, occ)) => json!({"thread": s.thread, "until_address": format!("{:#x}", rip), "occurrence": occ, "then_single_steps": s.plus}),
                 None => json!({"thread": s.thread, "until": "end"}),
             }).collect::<Vec<_>>(),
             "profile": self.profile,
+            "warm_up_calls_of_caller_0_before_the_scheduled_part": self.warmup.iter().map(|o| o.to_json()).collect::<Vec<_>>(),
         })
     }
     pub fn from_json(v: &Value) -> Option<PtracePlan> {
@@ -67,9 +78,13 @@ impl PtracePlan {
                 Some(a) => Some((u64::from_str_radix(a.trim_start_matches("0x"), 16).ok()?, s.get("occurrence")?.as_u64()? as u32)),
                 None => None,
             };
-            segs.push(Seg { thread, stop });
+            segs.push(Seg { thread, stop, plus: s.get("then_single_steps").and_then(|p| p.as_u64()).unwrap_or(0) as u32 });
         }
-        Some(PtracePlan { segs, profile: v.get("profile").and_then(|p| p.as_u64()).map(|p| p as u8) })
+        let warmup = match v.get("warm_up_calls_of_caller_0_before_the_scheduled_part").and_then(|w| w.as_array()) {
+            Some(a) => a.iter().map(Op::from_json).collect::<Option<Vec<Op>>>()?,
+            None => Vec::new(),
+        };
+        Some(PtracePlan { segs, profile: v.get("profile").and_then(|p| p.as_u64()).map(|p| p as u8), discover: None, discover_late: false, warmup })
     }
 }
 
@@ -109,13 +124,14 @@ impl ThreadCtx for FreeCtx {
 
 /// Same contract as `sched::execute`, without a baton: the threads park at a start marker, run
 /// their calls, and park at an end marker; who runs in between is decided by the tracer.
-pub fn execute_free(spec: &RunSpec, pool: Arc<dyn Pool + Send + Sync>) -> RunOutput {
+pub fn execute_free(spec: &RunSpec, pool: Arc<dyn Pool + Send + Sync>, warmup: &[Op]) -> RunOutput {
     let n = spec.threads.len();
     let mut handles = Vec::new();
     for tid in 0..n {
         let ops_list: Vec<Op> = spec.threads[tid].clone();
         let pool2 = pool.clone();
         let fault: Option<EmitFault> = spec.fault.clone();
+        let warm: Vec<Op> = if tid == 0 { warmup.to_vec() } else { Vec::new() };
         let h = std::thread::Builder::new()
             .stack_size(spec.stack_kb[tid] * 1024)
             .name(format!("client-{}", tid))
@@ -130,6 +146,15 @@ pub fn execute_free(spec: &RunSpec, pool: Arc<dyn Pool + Send + Sync>) -> RunOut
                 let dyn_ctx: Arc<dyn ThreadCtx> = ctx.clone();
                 hooks::set_ctx(Some(dyn_ctx));
                 let mut results: Vec<(Res, bool, bool)> = Vec::with_capacity(ops_list.len());
+                // history before the scheduled part: this caller alone, outcomes not judged here
+                ctx.cur_op.set(usize::MAX);
+                for op in warm.iter() {
+                    hooks::set_in_op(true);
+                    let _ = ops::exec(&*pool2, op);
+                    hooks::set_in_op(false);
+                    let _ = hooks::take_input_modified();
+                }
+                ctx.emitted.borrow_mut().clear();
                 marker(tid as u64, KIND_START);
                 for (i, op) in ops_list.iter().enumerate() {
                     ctx.cur_op.set(i);
@@ -259,6 +284,8 @@ enum Outcome {
 #[derive(Debug, Default, Clone)]
 pub struct TraceInfo {
     pub profile: Vec<u64>,
+    /// (address, arrivals) of the shared-access instructions the discovered call executed
+    pub discovered: Vec<(u64, u32)>,
     pub stops_reached: u64,
     pub stops_missed: u64,
     pub blocked_events: u64,
@@ -271,6 +298,15 @@ pub struct TraceInfo {
     pub died: Option<String>,
     pub timeout: bool,
     pub setup_error: Option<String>,
+}
+
+thread_local! {
+    /// addresses for `PtracePlan::discover` (set once by the batch driver from the symbol information)
+    static DISCOVER_ADDRS: RefCell<Vec<u64>> = const { RefCell::new(Vec::new()) };
+}
+
+pub fn set_discover_addrs(a: Vec<u64>) {
+    DISCOVER_ADDRS.with(|d| *d.borrow_mut() = a);
 }
 
 pub struct Tracer {
@@ -733,6 +769,170 @@ impl Tracer {
         Outcome::ReachedStop
     }
 
+    /// Run client `c` from where it stands to the end of its first call with a breakpoint on every
+    /// address of `addrs`, counting arrivals. Nobody else has run yet, so nothing can block.
+    fn discover(&mut self, c: usize, addrs: &[u64]) -> Outcome {
+        let ti = match self.client(c) {
+            Some(t) => t,
+            None => return Outcome::Died("no such client".into()),
+        };
+        let tid = self.threads[ti].tid;
+        let mut orig: BTreeMap<u64, u8> = BTreeMap::new();
+        for a in addrs {
+            if let Some(b) = peek_u8(tid, *a) {
+                if b != 0xcc && poke_u8(tid, *a, 0xcc) {
+                    orig.insert(*a, b);
+                }
+            }
+        }
+        let mut counts: BTreeMap<u64, u32> = BTreeMap::new();
+        let mut result = Outcome::ReachedStop;
+        let mut sig = 0u64;
+        let mut hits = 0u32;
+        loop {
+            if pt(libc::PTRACE_SYSCALL, tid, 0, sig) != 0 {
+                result = Outcome::Died("cannot resume thread".into());
+                break;
+            }
+            sig = 0;
+            match self.wait(tid) {
+                Ev::Timeout => {
+                    result = Outcome::Timeout;
+                    break;
+                }
+                Ev::Exited(how) => return Outcome::Died(how),
+                Ev::Stop { sig: s, event } => {
+                    if event == PTRACE_EVENT_CLONE {
+                        if self.adopt_new_thread(tid).is_some() {
+                            self.info.extra_threads += 1;
+                        }
+                        continue;
+                    }
+                    if s == (libc::SIGTRAP | 0x80) {
+                        self.info.syscall_stops += 1;
+                        let mut si: SyscallInfo = unsafe { std::mem::zeroed() };
+                        let n = pt(PTRACE_GET_SYSCALL_INFO, tid, std::mem::size_of::<SyscallInfo>() as u64, &mut si as *mut _ as u64);
+                        if n > 0 && si.op == 1 && si.nr_or_rval == SYS_FUTEX {
+                            let cmd = si.args[1] & 0x7f;
+                            if (cmd == 0 || cmd == 9) && !self.word_changed(tid, si.args[0], si.args[2] as u32) {
+                                // it waits for a caller that stands still: what it executed so far is the answer
+                                self.threads[ti].state = TState::Blocked { uaddr: si.args[0], val: si.args[2] as u32 };
+                                self.info.blocked_events += 1;
+                                result = Outcome::Blocked;
+                                break;
+                            }
+                        }
+                        continue;
+                    }
+                    if s == libc::SIGTRAP && event == 0 {
+                        let regs = match getregs(tid) {
+                            Some(r) => r,
+                            None => {
+                                result = Outcome::Died("cannot read registers".into());
+                                break;
+                            }
+                        };
+                        let at = regs.rip.wrapping_sub(1);
+                        if let Some(b) = orig.get(&at).copied() {
+                            *counts.entry(at).or_insert(0) += 1;
+                            hits += 1;
+                            self.info.breakpoint_hits += 1;
+                            // step over: original byte back, one instruction, breakpoint back
+                            poke_u8(tid, at, b);
+                            let mut r2 = regs;
+                            r2.rip = at;
+                            setregs(tid, &r2);
+                            if hits > 20_000 {
+                                // a hot loop: stop counting there
+                                orig.remove(&at);
+                                continue;
+                            }
+                            if pt(libc::PTRACE_SINGLESTEP, tid, 0, 0) != 0 {
+                                result = Outcome::Died("cannot single-step".into());
+                                break;
+                            }
+                            self.info.single_steps += 1;
+                            match self.wait(tid) {
+                                Ev::Stop { .. } => {}
+                                Ev::Timeout => {
+                                    result = Outcome::Timeout;
+                                    break;
+                                }
+                                Ev::Exited(how) => return Outcome::Died(how),
+                            }
+                            poke_u8(tid, at, 0xcc);
+                            // the step may itself have ended on a marker
+                            if let Some((_, kind)) = self.marker_at(tid) {
+                                if kind == KIND_END {
+                                    self.threads[ti].state = TState::Finished;
+                                    result = Outcome::Finished;
+                                    break;
+                                }
+                            }
+                            continue;
+                        }
+                        if regs.rdx == MAGIC && peek_u8(tid, at) == Some(0xcc) {
+                            if regs.rsi == KIND_END {
+                                self.threads[ti].state = TState::Finished;
+                                result = Outcome::Finished;
+                                break;
+                            }
+                            continue; // between two calls: all of this caller's calls are covered
+                        }
+                        sig = libc::SIGTRAP as u64;
+                        continue;
+                    }
+                    if s == libc::SIGSTOP && event == 0 {
+                        continue;
+                    }
+                    sig = s as u64;
+                }
+            }
+        }
+        for (a, b) in &orig {
+            poke_u8(tid, *a, *b);
+        }
+        self.info.discovered = counts.into_iter().collect();
+        result
+    }
+
+    /// Execute up to `n` further instructions of a stopped thread, one at a time. Stops early in front
+    /// of a system call (it could block) or a marker.
+    fn step_n(&mut self, ti: usize, n: u32) -> Outcome {
+        let tid = self.threads[ti].tid;
+        for _ in 0..n {
+            let regs = match getregs(tid) {
+                Some(r) => r,
+                None => return Outcome::Died("cannot read registers".into()),
+            };
+            let next = peek(tid, regs.rip).unwrap_or(0);
+            if (next & 0xffff) == 0x050f || ((next & 0xff) == 0xcc && regs.rdx == MAGIC) {
+                break;
+            }
+            if pt(libc::PTRACE_SINGLESTEP, tid, 0, 0) != 0 {
+                return Outcome::Died("cannot single-step".into());
+            }
+            self.info.single_steps += 1;
+            match self.wait(tid) {
+                Ev::Timeout => return Outcome::Timeout,
+                Ev::Exited(how) => return Outcome::Died(how),
+                Ev::Stop { sig, event } => {
+                    if event == PTRACE_EVENT_CLONE {
+                        if self.adopt_new_thread(tid).is_some() {
+                            self.info.extra_threads += 1;
+                        }
+                        break;
+                    }
+                    if sig != libc::SIGTRAP {
+                        // a signal of the code's own (a fault): let the normal path deliver it
+                        break;
+                    }
+                }
+            }
+        }
+        Outcome::ReachedStop
+    }
+
     fn drive_thread(&mut self, ti: usize, stop: Option<(u64, u32)>) -> Outcome {
         loop {
             if self.threads[ti].state == TState::Finished {
@@ -772,7 +972,11 @@ impl Tracer {
                                 Some(c) => format!("caller {}", c),
                                 None => format!("thread {}", t.tid),
                             }).collect();
-                            self.info.deadlock = Some(format!("{} wait in futex waits for each other and nobody else is left to run", who.join(", ")));
+                            self.info.deadlock = Some(if who.len() == 1 {
+                                format!("{} sleeps in a futex wait and nobody is left to run who could end it (a lost wake-up, or a lock never released)", who[0])
+                            } else {
+                                format!("{} sleep in futex waits and nobody else is left to run", who.join(", "))
+                            });
                             return Outcome::Blocked;
                         }
                     };
@@ -810,6 +1014,13 @@ impl Tracer {
                 return;
             }
         }
+        if let (Some(c), false) = (plan.discover, plan.discover_late) {
+            let addrs: Vec<u64> = DISCOVER_ADDRS.with(|d| d.borrow().clone());
+            let o = self.discover(c as usize, &addrs);
+            if fail(&mut self.info, &o) {
+                return;
+            }
+        }
         for seg in &plan.segs {
             let ti = match self.client(seg.thread as usize) {
                 Some(t) => t,
@@ -828,9 +1039,22 @@ impl Tracer {
             if seg.stop.is_some() {
                 if o == Outcome::ReachedStop {
                     self.info.stops_reached += 1;
+                    if seg.plus > 0 {
+                        let o2 = self.step_n(ti, seg.plus);
+                        if fail(&mut self.info, &o2) {
+                            return;
+                        }
+                    }
                 } else {
                     self.info.stops_missed += 1;
                 }
+            }
+        }
+        if let (Some(c), true) = (plan.discover, plan.discover_late) {
+            let addrs: Vec<u64> = DISCOVER_ADDRS.with(|d| d.borrow().clone());
+            let o = self.discover(c as usize, &addrs);
+            if fail(&mut self.info, &o) {
+                return;
             }
         }
         for c in 0..nclients {
@@ -876,7 +1100,8 @@ impl Tracer {
 /// Tracer entry point used by `e1::exec_in_child` for runs that carry a ptrace plan. Returns the
 /// trace information; `ok` = the process was released and will write its report.
 pub fn trace_child(pid: i32, plan: &PtracePlan, nclients: usize) -> (TraceInfo, bool) {
-    let deadline = Instant::now() + Duration::from_secs(30);
+    // (a profile is tens of thousands of single steps; on a loaded machine a step costs up to 0.2 ms)
+    let deadline = Instant::now() + Duration::from_secs(if plan.profile.is_some() { 90 } else { 30 });
     trace_child_inner(pid, plan, nclients, deadline)
 }
 
@@ -919,6 +1144,8 @@ pub struct Symbols {
     /// instructions that name a writable static (.data / .bss) or carry a lock prefix / exchange with
     /// memory: the places where a thread touches memory that is not its own by construction
     shared_access: BTreeSet<u64>,
+    /// the subset of those that touch the statics of the library's own verification hook module
+    hook_access: BTreeSet<u64>,
 }
 
 impl Symbols {
@@ -934,8 +1161,9 @@ impl Symbols {
                     }
                 }
                 let shared_access: BTreeSet<u64> = v.get("shared").and_then(|r| r.as_array()).cloned().unwrap_or_default().iter().filter_map(|x| x.as_u64()).map(|a| base + a).collect();
+                let hook_access: BTreeSet<u64> = v.get("hook").and_then(|r| r.as_array()).cloned().unwrap_or_default().iter().filter_map(|x| x.as_u64()).map(|a| base + a).collect();
                 if !ranges.is_empty() {
-                    return Symbols { ranges, shared_access };
+                    return Symbols { ranges, shared_access, hook_access };
                 }
             }
         }
@@ -947,6 +1175,7 @@ impl Symbols {
         let doc = json!({
             "ranges": s.ranges.iter().map(|r| json!([r.0 - base, r.1 - base, r.2, r.3])).collect::<Vec<_>>(),
             "shared": s.shared_access.iter().map(|a| a - base).collect::<Vec<_>>(),
+            "hook": s.hook_access.iter().map(|a| a - base).collect::<Vec<_>>(),
         });
         std::fs::write(path, doc.to_string()).is_ok()
     }
@@ -969,6 +1198,7 @@ impl Symbols {
         let mut ranges = Vec::new();
         let exe = std::fs::read_link("/proc/self/exe").ok();
         // load bias of the executable: lowest mapping of the file
+        let mut hook_statics: Vec<(u64, u64)> = Vec::new();
         let mut base = 0u64;
         if let (Some(exe), Ok(maps)) = (&exe, std::fs::read_to_string("/proc/self/maps")) {
             let name = exe.to_string_lossy();
@@ -988,6 +1218,14 @@ impl Symbols {
                     let mut it = l.splitn(4, ' ');
                     let (a, s, k, n) = (it.next(), it.next(), it.next(), it.next());
                     if let (Some(a), Some(s), Some(k), Some(n)) = (a, s, k, n) {
+                        if ["b", "B", "d", "D"].contains(&k) {
+                            if let (Ok(a), Ok(s)) = (u64::from_str_radix(a, 16), u64::from_str_radix(s, 16)) {
+                                if n.contains("jsonlogic_rs::verif") {
+                                    hook_statics.push((a, a + s.max(1)));
+                                }
+                            }
+                            continue;
+                        }
                         if k != "t" && k != "T" && k != "W" && k != "w" {
                             continue;
                         }
@@ -1001,9 +1239,14 @@ impl Symbols {
         }
         ranges.sort();
         let mut shared_access = BTreeSet::new();
+        let mut hook_access = BTreeSet::new();
         if let Some(exe) = std::fs::read_link("/proc/self/exe").ok() {
             // writable static sections (link-time addresses)
             let mut writable: Vec<(u64, u64)> = Vec::new();
+            // position-independent code often reaches a static through a pointer in the GOT: such a load
+            // counts when the pointer (read from this very process: same binary, same layout) leads
+            // into .data / .bss
+            let mut got: (u64, u64) = (0, 0);
             if let Ok(out) = std::process::Command::new("readelf").arg("-S").arg("-W").arg(&exe).output() {
                 for l in String::from_utf8_lossy(&out.stdout).lines() {
                     let l = l.trim_start().trim_start_matches('[').trim_start();
@@ -1014,6 +1257,11 @@ impl Symbols {
                         if name == ".data" || name == ".bss" {
                             if let (Ok(a), Ok(sz)) = (u64::from_str_radix(addr, 16), u64::from_str_radix(size, 16)) {
                                 writable.push((a, a + sz));
+                            }
+                        }
+                        if name == ".got" {
+                            if let (Ok(a), Ok(sz)) = (u64::from_str_radix(addr, 16), u64::from_str_radix(size, 16)) {
+                                got = (a, a + sz);
                             }
                         }
                     }
@@ -1034,7 +1282,17 @@ impl Symbols {
                     if !hot {
                         if let Some((_, c)) = rest.split_once("# ") {
                             if let Some(t) = c.split_whitespace().next().and_then(|t| u64::from_str_radix(t, 16).ok()) {
+                                let mut target = t;
                                 hot = writable.iter().any(|(a, b)| t >= *a && t < *b);
+                                if !hot && t >= got.0 && t + 8 <= got.1 && base != 0 && !insn.starts_with("call") && !insn.starts_with("jmp") {
+                                    let p = unsafe { std::ptr::read_volatile((base + t) as *const u64) };
+                                    let rel = p.wrapping_sub(base);
+                                    hot = writable.iter().any(|(a, b)| rel >= *a && rel < *b);
+                                    target = rel;
+                                }
+                                if hot && hook_statics.iter().any(|(a, b)| target >= *a && target < *b) {
+                                    hook_access.insert(base + addr);
+                                }
                             }
                         }
                     }
@@ -1044,10 +1302,19 @@ impl Symbols {
                 }
             }
         }
-        Symbols { ranges, shared_access }
+        Symbols { ranges, shared_access, hook_access }
     }
     pub fn is_shared_access(&self, rip: u64) -> bool {
         self.shared_access.contains(&rip)
+    }
+    /// A shared-access instruction inside the library proper (not in its verification hook module):
+    /// the instructions right after it are stop candidates too (a static's neighbour reached through
+    /// the same base register is not recognisable from the disassembly).
+    pub fn is_library_shared_access(&self, rip: u64) -> bool {
+        self.is_shared_access(rip) && self.is_library(rip) && !self.hook_access.contains(&rip) && !self.describe(rip).contains("::verif::")
+    }
+    pub fn shared_access_addrs(&self) -> Vec<u64> {
+        self.shared_access.iter().copied().collect()
     }
     pub fn shared_access_known(&self) -> usize {
         self.shared_access.len()
@@ -1162,23 +1429,20 @@ const SHARED_DATA: &str = r#"{"a":{"b":1,"c":"two"},"b":[3,4],"s":["p","q","r"],
 
 /// One operator (or coercion helper), several callers, each with operands of its own: whatever a
 /// leaf keeps between or across calls is written by one caller and read by another.
-fn gen_one_operator(seed: u64) -> E1Run {
+fn gen_one_operator(seed: u64, index: u64) -> (E1Run, Vec<Op>) {
     let mut rng = Rng::new(prng::mix(seed, &[0x10e5]));
     let nthreads = if rng.chance(1, 4) { 3 } else { 2 };
-    let mut all_ops: Vec<&str> = Vec::new();
-    all_ops.extend_from_slice(crate::gen::EAGER_OPS);
-    all_ops.extend_from_slice(crate::gen::DATA_OPS);
-    all_ops.extend_from_slice(crate::gen::LAZY_OPS);
-    let helper = rng.chance(1, 5);
-    let opname: String = if helper {
-        let mut hs: Vec<&str> = Vec::new();
-        hs.extend_from_slice(ops::HELPERS_1);
-        hs.extend_from_slice(ops::HELPERS_2);
-        hs.extend_from_slice(ops::HELPERS_N);
-        (*rng.pick(&hs)).to_string()
-    } else {
-        (*rng.pick(&all_ops)).to_string()
-    };
+    // operator and operand style are stratified over the workload index (every operator and helper
+    // comes round at the same rate, each time with the next style), everything else is drawn
+    let mut all_ops: Vec<(&str, bool)> = Vec::new();
+    for o in crate::gen::EAGER_OPS.iter().chain(crate::gen::DATA_OPS).chain(crate::gen::LAZY_OPS) {
+        all_ops.push((*o, false));
+    }
+    for h in ops::HELPERS_1.iter().chain(ops::HELPERS_2).chain(ops::HELPERS_N) {
+        all_ops.push((*h, true));
+    }
+    let (name, helper) = all_ops[(index as usize) % all_ops.len()];
+    let opname: String = name.to_string();
     // a quarter of the operator workloads give every caller an operator of its own from one family
     // (two code paths around the same state: lock order, a table one fills and the other reads)
     const FAMILIES: &[&[&str]] = &[
@@ -1191,7 +1455,7 @@ fn gen_one_operator(seed: u64) -> E1Run {
     ];
     let family: Option<&[&str]> = if !helper && rng.chance(1, 4) { FAMILIES.iter().find(|f| f.contains(&opname.as_str())).copied() } else { None };
     // operand style of this workload: numeric strings, words, numbers, mixed
-    let style = rng.weighted(&[40, 25, 15, 20]);
+    let style = [0usize, 1, 0, 3, 2][((index as usize) / all_ops.len()) % 5];
     let draw = |rng: &mut Rng| -> Value {
         match if style == 3 { rng.below(3) } else { style } {
             0 => json!(*rng.pick(NUMERIC_STRINGS)),
@@ -1208,22 +1472,21 @@ fn gen_one_operator(seed: u64) -> E1Run {
     };
     let mut threads: Vec<Vec<Op>> = Vec::new();
     let shared_data = rng.chance(2, 3);
-    for _ in 0..nthreads {
-        let fresh = rng.chance(1, 4);
-        // a caller's operands come from a palette of its own of one to three values: the same value
-        // meets the same leaf several times in a row, other callers bring other values
-        let k = 1 + rng.weighted(&[40, 40, 20]);
-        let palette: Vec<Value> = (0..k).map(|_| draw(&mut rng)).collect();
+    // the *shape* of the call (which form of the operator, which body, how many operands) is drawn
+    // once per workload; callers and the history differ in operand values only
+    let shape_seed = rng.next_u64();
+    let mk_op = |rng: &mut Rng, palette: &Vec<Value>, fresh: bool| -> Op {
+        let mut sh = Rng::new(shape_seed);
         let scalar = |rng: &mut Rng| -> Value { palette[rng.below(palette.len())].clone() };
-        let op = if helper {
+        if helper {
             let h = opname.as_str();
             if ops::HELPERS_1.contains(&h) {
-                Op::helper(h, vec![scalar(&mut rng).to_string()], fresh)
+                Op::helper(h, vec![scalar(rng).to_string()], fresh)
             } else if ops::HELPERS_2.contains(&h) {
-                Op::helper(h, vec![scalar(&mut rng).to_string(), scalar(&mut rng).to_string()], fresh)
+                Op::helper(h, vec![scalar(rng).to_string(), scalar(rng).to_string()], fresh)
             } else {
-                let n = rng.range(1, 4);
-                let xs: Vec<Value> = (0..n).map(|_| scalar(&mut rng)).collect();
+                let n = sh.range(1, 4);
+                let xs: Vec<Value> = (0..n).map(|_| scalar(rng)).collect();
                 Op::helper(h, vec![Value::Array(xs).to_string()], fresh)
             }
         } else {
@@ -1237,50 +1500,88 @@ fn gen_one_operator(seed: u64) -> E1Run {
                 Value::Array((0..n).map(|_| scalar(rng)).collect())
             };
             let rule: Value = match o {
-                "var" => match rng.below(3) {
-                    0 => json!({"var": path(&mut rng)}),
-                    1 => json!({"var": [path(&mut rng), scalar(&mut rng)]}),
-                    _ => json!({"cat": [{"var": path(&mut rng)}, "/", {"var": path(&mut rng)}]}),
+                "var" => match sh.below(3) {
+                    0 => json!({"var": path(rng)}),
+                    1 => json!({"var": [path(rng), scalar(rng)]}),
+                    _ => json!({"cat": [{"var": path(rng)}, "/", {"var": path(rng)}]}),
                 },
-                "missing" => json!({"missing": [path(&mut rng), path(&mut rng), "zz"]}),
-                "missing_some" => json!({"missing_some": [1, [path(&mut rng), "zz", path(&mut rng)]]}),
+                "missing" => json!({"missing": [path(rng), path(rng), "zz"]}),
+                "missing_some" => json!({"missing_some": [1, [path(rng), "zz", path(rng)]]}),
                 "map" | "filter" | "all" | "some" | "none" => {
-                    let body = match rng.below(4) {
-                        0 => json!({"+": [{"var": ""}, scalar(&mut rng)]}),
-                        1 => json!({"<": [{"var": ""}, scalar(&mut rng)]}),
+                    // (bodies whose outcome depends on *which* elements are iterated, not only on how many)
+                    let body = match sh.below(8) {
+                        0 => json!({"+": [{"var": ""}, scalar(rng)]}),
+                        1 => json!({"<": [{"var": ""}, scalar(rng)]}),
                         2 => json!({"substr": [{"var": ""}, 1]}),
+                        3 | 4 | 5 => json!({"in": [{"var": ""}, scalar(rng)]}),
+                        6 => json!({"==": [{"var": ""}, scalar(rng)]}),
                         _ => json!({"var": ""}),
                     };
-                    json!({ o: [small_array(&mut rng, &scalar), body] })
+                    // (a string is iterated character by character: half of the time the operand is one)
+                    let items = if sh.chance(1, 2) { scalar(rng) } else { small_array(rng, &scalar) };
+                    json!({ o: [items, body] })
                 }
-                "reduce" => json!({"reduce": [small_array(&mut rng, &scalar), {"+": [{"var": "current"}, {"var": "accumulator"}]}, scalar(&mut rng)]}),
-                "if" | "?:" => json!({ o: [scalar(&mut rng), scalar(&mut rng), scalar(&mut rng)] }),
-                "substr" => json!({"substr": [scalar(&mut rng), rng.below(4) as i64 - 1, rng.below(4) as i64 - 1]}),
+                "reduce" => json!({"reduce": [small_array(rng, &scalar), {"+": [{"var": "current"}, {"var": "accumulator"}]}, scalar(rng)]}),
+                "if" | "?:" => json!({ o: [scalar(rng), scalar(rng), scalar(rng)] }),
+                "substr" => json!({"substr": [scalar(rng), rng.below(4) as i64 - 1, rng.below(4) as i64 - 1]}),
                 "in" => {
-                    if rng.chance(1, 2) {
-                        json!({"in": [scalar(&mut rng), small_array(&mut rng, &scalar)]})
+                    if sh.chance(1, 2) {
+                        json!({"in": [scalar(rng), small_array(rng, &scalar)]})
                     } else {
-                        json!({"in": [scalar(&mut rng), *rng.pick(WORDS)]})
+                        json!({"in": [scalar(rng), *rng.pick(WORDS)]})
                     }
                 }
-                "merge" => json!({"merge": [small_array(&mut rng, &scalar), scalar(&mut rng)]}),
-                "!" | "!!" | "log" => json!({ o: [scalar(&mut rng)] }),
-                "-" | "/" | "%" | "==" | "!=" | "===" | "!==" => json!({ o: [scalar(&mut rng), scalar(&mut rng)] }),
+                "merge" => json!({"merge": [small_array(rng, &scalar), scalar(rng)]}),
+                "!" | "!!" | "log" => json!({ o: [scalar(rng)] }),
+                "-" | "/" | "%" | "==" | "!=" | "===" | "!==" => json!({ o: [scalar(rng), scalar(rng)] }),
                 _ => {
-                    let n = rng.range(2, 3);
-                    json!({ o: (0..n).map(|_| scalar(&mut rng)).collect::<Vec<_>>() })
+                    let n = sh.range(2, 3);
+                    json!({ o: (0..n).map(|_| scalar(rng)).collect::<Vec<_>>() })
                 }
             };
             // operands through `var` half the time: data-driven leaves
-            let data: String = if shared_data { serde_json::from_str::<Value>(SHARED_DATA).expect("shared data").to_string() } else { json!({"a": scalar(&mut rng), "b": scalar(&mut rng)}).to_string() };
+            let data: String = if shared_data { serde_json::from_str::<Value>(SHARED_DATA).expect("shared data").to_string() } else { json!({"a": scalar(rng), "b": scalar(rng)}).to_string() };
             Op::apply(&rule.to_string(), &data, fresh)
-        };
+        }
+    };
+    for _ in 0..nthreads {
+        let fresh = rng.chance(1, 4);
+        // a caller's operands come from a palette of its own of one to three values: the same value
+        // meets the same leaf several times in a row, other callers bring other values
+        let k = 1 + rng.weighted(&[40, 40, 20]);
+        let palette: Vec<Value> = (0..k).map(|_| draw(&mut rng)).collect();
+        let op = mk_op(&mut rng, &palette, fresh);
         // each caller makes its call twice (a value remembered wrongly shows at the second call)
         let reps = if rng.chance(3, 4) { 2 } else { 1 };
         threads.push((0..reps).map(|_| op.clone()).collect());
     }
+    // a fifth of the workloads: every caller makes the very same call (whatever coalesces or shares
+    // work between identical evaluations in flight is exercised only then)
+    let identical = rng.chance(1, 5);
+    if identical {
+        let first = threads[0].clone();
+        for t in threads.iter_mut().skip(1) {
+            *t = first.clone();
+        }
+    }
+    // two fifths of the workloads: a history first. Caller 0 makes 9-24 calls of the same kind with values
+    // of their own before the scheduled part, so that whatever has a capacity is full when it begins
+    let mut warmup: Vec<Op> = Vec::new();
+    if rng.chance(2, 5) {
+        let count = rng.range(9, 24);
+        for j in 0..count {
+            let v = match style {
+                0 => json!(NUMERIC_STRINGS[j % NUMERIC_STRINGS.len()]),
+                1 => json!(WORDS[j % WORDS.len()]),
+                _ => json!(format!("w{}", j)),
+            };
+            let mut op = mk_op(&mut rng, &vec![v], true);
+            op.fresh = true;
+            warmup.push(op);
+        }
+    }
     let n = threads.len();
-    E1Run {
+    (E1Run {
         seed,
         threads,
         stack_kb: vec![2048; n],
@@ -1292,7 +1593,7 @@ fn gen_one_operator(seed: u64) -> E1Run {
         alloc_yield: false,
         tid_offset: 0,
         ptrace: None,
-    }
+    }, warmup)
 }
 
 fn remap_plan(plan: &PtracePlan, removed: usize) -> PtracePlan {
@@ -1302,9 +1603,9 @@ fn remap_plan(plan: &PtracePlan, removed: usize) -> PtracePlan {
         if t == removed {
             continue;
         }
-        segs.push(Seg { thread: if t > removed { s.thread - 1 } else { s.thread }, stop: s.stop });
+        segs.push(Seg { thread: if t > removed { s.thread - 1 } else { s.thread }, stop: s.stop, plus: s.plus });
     }
-    PtracePlan { segs, profile: None }
+    PtracePlan { segs, profile: None, discover: None, discover_late: false, warmup: plan.warmup.clone() }
 }
 
 /// Minimise by execution: drop whole callers, then single calls, while the same class of violation persists.
@@ -1319,6 +1620,32 @@ fn shrink_traced(run: &E1Run, target: &Violation, oracle: &mut Oracle, budget: u
         let rep = e1::exec_in_child(cand, &isos);
         rep.violations.iter().find(|v| same(v)).cloned()
     };
+    // the history first: none of it, then half of it
+    loop {
+        let w = best.ptrace.as_ref().map(|p| p.warmup.len()).unwrap_or(0);
+        if w == 0 || execs >= budget {
+            break;
+        }
+        let mut improved = false;
+        for keep in [0, w / 2] {
+            if keep >= w {
+                continue;
+            }
+            let mut c = best.clone();
+            if let Some(p) = c.ptrace.as_mut() {
+                p.warmup.truncate(keep);
+            }
+            if let Some(v) = try_run(&c, oracle, &mut execs) {
+                best = c;
+                best_v = v;
+                improved = true;
+                break;
+            }
+        }
+        if !improved {
+            break;
+        }
+    }
     let mut ti = 0;
     while ti < best.threads.len() && best.threads.len() > 2 && execs < budget {
         let mut c = best.clone();
@@ -1363,6 +1690,8 @@ pub fn main(a: &crate::Args) -> i32 {
     let det_every = a.u64("determinism-every", 0);
     let sweep_every = a.u64("sweep-every", 0);
     let per_victim = a.u64("runs-per-victim", if tier == "thorough" { 300 } else { 120 });
+    // every n-th workload also gets a single-stepped profile and stops sampled from it
+    let profile_every = a.u64("profile-every", if tier == "thorough" { 3 } else { 8 });
     let max_violations = a.u64("max-violations", 6) as usize;
     let started = Instant::now();
 
@@ -1372,6 +1701,7 @@ pub fn main(a: &crate::Args) -> i32 {
     let corpus = crate::gen::Corpus::load();
     let symbols = Symbols::load_cached(if a.has("symbols") { Some(a.str("symbols", "")) } else { None });
 
+    set_discover_addrs(symbols.shared_access_addrs());
     let mut runs = 0u64;
     let mut workloads = 0u64;
     let mut sums: BTreeMap<String, u64> = BTreeMap::new();
@@ -1386,6 +1716,8 @@ pub fn main(a: &crate::Args) -> i32 {
     let mut samples: Vec<Value> = Vec::new();
     let mut det_checked = 0u64;
     let mut det_mismatch = 0u64;
+    let dump_hashes = a.has("dump-hashes");
+    let mut hashes: BTreeMap<String, String> = BTreeMap::new();
     if symbols.known() == 0 {
         notes.push("no symbol table: preemption points are not weighted towards library code".into());
     }
@@ -1406,22 +1738,38 @@ pub fn main(a: &crate::Args) -> i32 {
     } else {
         None
     };
+    let fixed_warmup: Vec<Op> = if a.has("workload") {
+        std::fs::read_to_string(a.str("workload", "")).ok().and_then(|t| serde_json::from_str::<Value>(&t).ok()).and_then(|v| v.get("warmup").and_then(|w| w.as_array().cloned())).map(|a| a.iter().filter_map(Op::from_json).collect()).unwrap_or_default()
+    } else {
+        Vec::new()
+    };
     let max_workloads = if fixed_workload.is_some() { 1 } else { max_workloads };
     let sweep_every = if fixed_workload.is_some() { 1 } else { sweep_every };
     let mut i = worker;
     'outer: while workloads < max_workloads && (started.elapsed().as_secs_f64() < seconds || workloads == 0) && violations.len() < max_violations {
         let wl_seed = prng::mix(seed, &[crate::tier_id(&tier), 5, i]);
+        let wl_index = i;
+        let mut in_wl = 0u64;
         i += workers;
-        let run = if let Some(r) = &fixed_workload {
-            r.clone()
+        let (run, warmup): (E1Run, Vec<Op>) = if let Some(r) = &fixed_workload {
+            (r.clone(), fixed_warmup.clone())
         } else if prng::mix(wl_seed, &[0x5e1]) % 5 < 3 {
-            gen_one_operator(wl_seed)
+            gen_one_operator(wl_seed, wl_index + prng::mix(seed, &[0x0ff5e7]) % 1000)
         } else {
             match gen_small(wl_seed, &corpus, &mut oracle) {
-                Some(r) => r,
+                Some(r) => (r, Vec::new()),
                 None => continue,
             }
         };
+        if !warmup.is_empty() {
+            bump(&mut sums, "workloads_with_a_history_before_the_scheduled_part", 1);
+        }
+        if a.has("dry-run") {
+            // development aid: print the workloads, execute nothing
+            println!("{}", json!({"index": wl_index, "shape": run.shape, "threads": run.threads.iter().map(|t| t.iter().map(|o| o.short()).collect::<Vec<_>>()).collect::<Vec<_>>(), "warmup": warmup.iter().map(|o| o.short()).collect::<Vec<_>>()}));
+            workloads += 1;
+            continue;
+        }
         let (isos, found0) = e1::isolate(&run, &mut oracle);
         if !found0.is_empty() || isos.iter().flatten().any(|x| matches!(x.res, Res::Crash(_))) {
             continue; // input-only defects are E1's business
@@ -1460,16 +1808,61 @@ pub fn main(a: &crate::Args) -> i32 {
         let mut pending: Vec<(E1Run, e1::RunReport)> = Vec::new();
         let sweep = sweep_every > 0 && workloads % sweep_every == 0;
 
+        // --- discovery: the probe's calls with a breakpoint on every shared-access instruction of
+        // the binary; what it executes is swept systematically below (cheap: a few dozen runs)
+        let mut hot_stops: Vec<(u64, u32)> = Vec::new();
+        {
+            let mut drun = run.clone();
+            drun.ptrace = Some(PtracePlan { segs: Vec::new(), profile: None, discover: Some(probe as u8), discover_late: false, warmup: warmup.clone() });
+            let (rep, info) = e1::exec_in_child_traced(&drun, &isos);
+            runs += 1;
+            let info = info.unwrap_or_default();
+            if let Some(msg) = &rep.stalled {
+                if msg.starts_with("tracer set-up failed") {
+                    harness_errors.push(format!("workload {:016x}: {}", wl_seed, msg));
+                    break 'outer;
+                }
+                bump(&mut sums, "inconclusive_runs", 1);
+                if notes.len() < 5 {
+                    notes.push(format!("workload {:016x} (discovery): {}", wl_seed, msg));
+                }
+                continue 'outer;
+            }
+            bump(&mut sums, "discovery_runs", 1);
+            bump(&mut sums, "calls", rep.calls);
+            bump(&mut sums, "shared_access_instructions_executed_by_discovered_calls", info.discovered.len() as u64);
+            if !rep.violations.is_empty() {
+                pending.push((drun.clone(), rep.clone()));
+            }
+            for (a, c) in &info.discovered {
+                for occ in 1..=(*c).min(4) {
+                    hot_stops.push((*a, occ));
+                }
+            }
+            hot_stops.truncate(160);
+        }
+        let do_profile = sweep || profile_every <= 1 || workloads % profile_every == 0;
         for &victim in &[probe] {
+            if !do_profile {
+                break;
+            }
             // --- profile: the victim alone, single-stepped; the others afterwards
             let mut prun = run.clone();
-            prun.ptrace = Some(PtracePlan { segs: Vec::new(), profile: Some(victim as u8) });
+            prun.ptrace = Some(PtracePlan { segs: Vec::new(), profile: Some(victim as u8), discover: None, discover_late: false, warmup: warmup.clone() });
             let (rep, info) = e1::exec_in_child_traced(&prun, &isos);
             runs += 1;
             let info = info.unwrap_or_default();
             if let Some(msg) = &rep.stalled {
-                harness_errors.push(format!("workload {:016x}: {}", wl_seed, msg));
-                break 'outer;
+                if msg.starts_with("tracer set-up failed") {
+                    harness_errors.push(format!("workload {:016x}: {}", wl_seed, msg));
+                    break 'outer;
+                }
+                // no profile, no stops to choose from: this workload is skipped
+                bump(&mut sums, "inconclusive_runs", 1);
+                if notes.len() < 5 {
+                    notes.push(format!("workload {:016x} (profile): {}", wl_seed, msg));
+                }
+                continue 'outer;
             }
             bump(&mut sums, "profiles", 1);
             bump(&mut sums, "profile_instructions", info.profile.len() as u64);
@@ -1487,16 +1880,87 @@ pub fn main(a: &crate::Args) -> i32 {
             }
         }
         for &victim in &victims {
-            let cands = match profiles.get(&victim) {
-                Some(c) if !c.is_empty() => c.clone(),
-                _ => continue,
-            };
+            let cands: Vec<(u64, u32, bool)> = profiles.get(&victim).cloned().unwrap_or_default();
             let lib: Vec<(u64, u32, bool)> = cands.iter().filter(|c| c.2).cloned().collect();
             let hot: Vec<(u64, u32, bool)> = cands.iter().filter(|c| symbols.is_shared_access(c.0)).cloned().collect();
             let others: Vec<usize> = (0..n).filter(|t| *t != victim).collect();
-            // --- the list of plans: sampled, or (sweep) every shared-access and library address at its first arrivals
+            // --- the list of plans: every discovered shared-access stop; then sampled stops from the
+            // profile, or (sweep) every library address at its first arrivals
             let mut plans: Vec<PtracePlan> = Vec::new();
-            if sweep {
+            for st in &hot_stops {
+                let mut segs = vec![Seg { thread: victim as u8, stop: Some(*st), plus: 0 }];
+                for o in &others {
+                    segs.push(Seg { thread: *o as u8, stop: None, plus: 0 });
+                }
+                plans.push(PtracePlan { segs, profile: None, discover: None, discover_late: false, warmup: warmup.clone() });
+            }
+            // ... and, after a shared access made by the library itself, each of the next instructions
+            let mut near = 0u64;
+            for st in hot_stops.iter().filter(|st| symbols.is_library_shared_access(st.0) && st.1 <= 3).take(24) {
+                for k in 1..=12u32 {
+                    let mut segs = vec![Seg { thread: victim as u8, stop: Some(*st), plus: k }];
+                    for o in &others {
+                        segs.push(Seg { thread: *o as u8, stop: None, plus: 0 });
+                    }
+                    plans.push(PtracePlan { segs, profile: None, discover: None, discover_late: false, warmup: warmup.clone() });
+                    near += 1;
+                }
+            }
+            bump(&mut sums, "systematic_stops_after_a_library_shared_access", near);
+            // ... and two preemptions where the library itself touches shared memory: with the victim
+            // standing at such a place, what does the next caller execute (the paths taken only under
+            // contention: waiting for a result in flight, finding an entry somebody is filling)? Each
+            // of its shared accesses is then a second stop.
+            let lib_hot: Vec<(u64, u32)> = hot_stops.iter().filter(|st| symbols.is_library_shared_access(st.0) && st.1 <= 2).cloned().collect();
+            if !lib_hot.is_empty() && !others.is_empty() {
+                let o = others[0];
+                let step = (lib_hot.len() / 4).max(1);
+                let picks: Vec<(u64, u32)> = lib_hot.iter().step_by(step).take(4).cloned().collect();
+                for s1 in picks {
+                    let mut drun = run.clone();
+                    drun.ptrace = Some(PtracePlan { segs: vec![Seg { thread: victim as u8, stop: Some(s1), plus: 0 }], profile: None, discover: Some(o as u8), discover_late: true, warmup: warmup.clone() });
+                    let (rep, info) = e1::exec_in_child_traced(&drun, &isos);
+                    runs += 1;
+                    let info = info.unwrap_or_default();
+                    bump(&mut sums, "discovery_runs_under_contention", 1);
+                    if rep.stalled.is_some() {
+                        bump(&mut sums, "inconclusive_runs", 1);
+                        continue;
+                    }
+                    if !rep.violations.is_empty() {
+                        pending.push((drun.clone(), rep.clone()));
+                    }
+                    let mut m = 0u64;
+                    'second: for (a, c) in &info.discovered {
+                        if !symbols.is_library_shared_access(*a) {
+                            continue;
+                        }
+                        for occ in 1..=(*c).min(2) {
+                            plans.push(PtracePlan {
+                                segs: vec![
+                                    Seg { thread: victim as u8, stop: Some(s1), plus: 0 },
+                                    Seg { thread: o as u8, stop: Some((*a, occ)), plus: 0 },
+                                    Seg { thread: victim as u8, stop: None, plus: 0 },
+                                    Seg { thread: o as u8, stop: None, plus: 0 },
+                                ],
+                                profile: None,
+                                discover: None,
+                                discover_late: false,
+                                warmup: warmup.clone(),
+                            });
+                            m += 1;
+                            if m >= 40 {
+                                break 'second;
+                            }
+                        }
+                    }
+                    bump(&mut sums, "systematic_second_stops_under_contention", m);
+                }
+            }
+            bump(&mut sums, "systematic_shared_access_stops", hot_stops.len() as u64);
+            if cands.is_empty() {
+                // no profile for this workload
+            } else if sweep {
                 bump(&mut sums, "instruction_sweeps", 1);
                 let mut stops: Vec<(u64, u32)> = Vec::new();
                 for c in hot.iter() {
@@ -1513,11 +1977,11 @@ pub fn main(a: &crate::Args) -> i32 {
                     }
                 }
                 for st in stops {
-                    let mut segs = vec![Seg { thread: victim as u8, stop: Some(st) }];
+                    let mut segs = vec![Seg { thread: victim as u8, stop: Some(st), plus: 0 }];
                     for o in &others {
-                        segs.push(Seg { thread: *o as u8, stop: None });
+                        segs.push(Seg { thread: *o as u8, stop: None, plus: 0 });
                     }
-                    plans.push(PtracePlan { segs, profile: None });
+                    plans.push(PtracePlan { segs, profile: None, discover: None, discover_late: false, warmup: warmup.clone() });
                 }
             } else {
                 // half of the stops right before an instruction that touches memory which is shared by
@@ -1540,28 +2004,28 @@ pub fn main(a: &crate::Args) -> i32 {
                 for _ in 0..per_victim {
                     let mut os = others.clone();
                     rng.shuffle(&mut os);
-                    let mut segs = vec![Seg { thread: victim as u8, stop: Some(pick(&mut rng, &cands, &lib, &hot)) }];
+                    let mut segs = vec![Seg { thread: victim as u8, stop: Some(pick(&mut rng, &cands, &lib, &hot)), plus: 0 }];
                     let second = os.first().and_then(|o| profiles.get(o).map(|p| (*o, p.clone())));
                     match second {
                         Some((o, pc)) if !pc.is_empty() && rng.chance(1, 3) => {
                             // two preemptions: the other caller is stopped inside its call too
                             let l2: Vec<(u64, u32, bool)> = pc.iter().filter(|c| c.2).cloned().collect();
                             let h2: Vec<(u64, u32, bool)> = pc.iter().filter(|c| symbols.is_shared_access(c.0)).cloned().collect();
-                            segs.push(Seg { thread: o as u8, stop: Some(pick(&mut rng, &pc, &l2, &h2)) });
+                            segs.push(Seg { thread: o as u8, stop: Some(pick(&mut rng, &pc, &l2, &h2)), plus: 0 });
                             if rng.chance(1, 2) {
-                                segs.push(Seg { thread: victim as u8, stop: Some(pick(&mut rng, &cands, &lib, &hot)) });
-                                segs.push(Seg { thread: o as u8, stop: None });
+                                segs.push(Seg { thread: victim as u8, stop: Some(pick(&mut rng, &cands, &lib, &hot)), plus: 0 });
+                                segs.push(Seg { thread: o as u8, stop: None, plus: 0 });
                             } else {
-                                segs.push(Seg { thread: victim as u8, stop: None });
+                                segs.push(Seg { thread: victim as u8, stop: None, plus: 0 });
                             }
                         }
                         _ => {
                             for o in &os {
-                                segs.push(Seg { thread: *o as u8, stop: None });
+                                segs.push(Seg { thread: *o as u8, stop: None, plus: 0 });
                             }
                         }
                     }
-                    plans.push(PtracePlan { segs, profile: None });
+                    plans.push(PtracePlan { segs, profile: None, discover: None, discover_late: false, warmup: warmup.clone() });
                 }
             }
             for plan in plans {
@@ -1612,9 +2076,19 @@ pub fn main(a: &crate::Args) -> i32 {
                         if let Some((rip, occ)) = s.stop {
                             h.u64(rip);
                             h.u64(occ as u64);
+                            h.u64(s.plus as u64);
                         }
                     }
                     points.insert(h.0);
+                }
+                if dump_hashes {
+                    let mut h = prng::Hasher::new();
+                    h.u64(rep.event_hash);
+                    h.u64(info.stops_reached);
+                    h.u64(info.breakpoint_hits);
+                    h.u64(info.blocked_events);
+                    hashes.insert(format!("{}:{}", wl_index, in_wl), format!("{:016x}", h.0));
+                    in_wl += 1;
                 }
                 if samples.len() < 2 && info.stops_reached >= 1 {
                     samples.push(r.to_json());
@@ -1642,7 +2116,7 @@ pub fn main(a: &crate::Args) -> i32 {
                 if !seen_sigs.insert(sig) {
                     continue;
                 }
-                let (min_run, min_v, execs) = if rep.crashed.is_none() && violations.len() < 3 { shrink_traced(&r, v, &mut oracle, 24) } else { (r.clone(), v.clone(), 0) };
+                let (min_run, min_v, execs) = if rep.crashed.is_none() && violations.len() < 3 { shrink_traced(&r, v, &mut oracle, 30) } else { (r.clone(), v.clone(), 0) };
                 let name = format!("{}-e5-{:016x}-{}.json", min_v.property, wl_seed, violations.len());
                 let path = format!("{}/{}", replay_dir, name);
                 let doc = json!({
@@ -1650,7 +2124,7 @@ pub fn main(a: &crate::Args) -> i32 {
                     "property": min_v.property, "violation": min_v.to_json(), "original_violation": v.to_json(),
                     "verif_seed": seed, "tier": tier, "shrink_executions": execs,
                     "note": "addresses in the plan are those of the simulator binary built from the tree under test; replay rebuilds the same binary",
-                    "stops_described": min_run.ptrace.as_ref().map(|p| p.segs.iter().filter_map(|s| s.stop.map(|(rip, occ)| format!("caller {} stopped before its arrival no. {} at {:#x} = {}{}", s.thread, occ, rip, symbols.describe(rip), if symbols.is_shared_access(rip) { " (touches a static or is an atomic operation)" } else { "" }))).collect::<Vec<_>>()),
+                    "stops_described": min_run.ptrace.as_ref().map(|p| p.segs.iter().filter_map(|s| s.stop.map(|(rip, occ)| format!("caller {} stopped before its arrival no. {} at {:#x} = {}{}{}", s.thread, occ, rip, symbols.describe(rip), if symbols.is_shared_access(rip) { " (touches a static or is an atomic operation)" } else { "" }, if s.plus > 0 { format!(", then {} more instruction(s)", s.plus) } else { String::new() }))).collect::<Vec<_>>()),
                     "run": min_run.to_json(),
                 });
                 let _ = std::fs::write(&path, serde_json::to_string_pretty(&doc).unwrap());
@@ -1673,7 +2147,7 @@ pub fn main(a: &crate::Args) -> i32 {
         "oracle": {"forks": oracle.forks, "queries": oracle.queries, "memo": oracle.memo_len()},
         "nontrivial_file": nt_path, "nontrivial_local": points.len(),
         "violations": violations, "harness_errors": harness_errors, "notes": notes, "samples": samples,
-        "symbols_known": symbols.known(), "shared_access_instructions_known": symbols.shared_access_known(), "cells": operators.iter().collect::<Vec<_>>(),
+        "hashes": hashes, "symbols_known": symbols.known(), "shared_access_instructions_known": symbols.shared_access_known(), "cells": operators.iter().collect::<Vec<_>>(),
         "wall_s": started.elapsed().as_secs_f64(),
     });
     if std::fs::write(&out_path, serde_json::to_string(&summary).unwrap()).is_err() {
